@@ -84,6 +84,12 @@ Start(p) ==
   /\ started' = started \cup {p}
   /\ UNCHANGED <<sc, ref, ended, errs, recovers, phase>>
 
+\* Start of a resolver that also reports what graphql.CollectAllFields answered in it
+CfOf(p) == {x.k : x \in {y \in ref.fwd.dinfo : y.p = p /\ y.l = "#cf"}}
+StartCf(p, ev) ==
+  /\ Start(p)
+  /\ ("cf" \in DOMAIN ev => CfOf(p) = {ev.cf[i] : i \in 1..Len(ev.cf)})
+
 End(p) ==
   /\ phase = "running"
   /\ p \in started \ ended
